@@ -96,7 +96,8 @@ theorem elems_any_eq_kids_any (n : SNode) (f : SRef → Bool) (hvar : ∀ v b, f
     simp only [SNode.elems, SNode.kids]
     induction es with
     | nil => rfl
-    | cons e es ih => simp [List.flatMap_cons, ih, Bool.or_assoc]
+    | cons e es ih =>
+      simp only [List.any_cons, List.flatMap_cons, List.any_append, List.any_nil, Bool.or_false, ih]
 
 theorem kidsCount_any_eq_kids_any (n : SNode) (f : SRef → Bool) : n.kidsCount.any f = n.kids.any f := by
   cases n with
@@ -275,6 +276,7 @@ theorem foldDagS_spec (t : Tag) (A : SAlg (U t)) : ∀ (s : SStore) (r : SRef) (
           · intro j hj
             rw [hreach] at hj
             simp only [Bool.or_eq_false_iff, beq_eq_false_iff_ne, ne_eq] at hj
+            dsimp only
             rw [Scr.set_other _ _ hj.1, f1 j (by rw [hany]; exact hj.2)]
       · simp only [foldDagS, h, hi, if_false]
         obtain ⟨v1, p1, f1⟩ := foldDagS_spec t A rest r σ (fun j hj => by
@@ -303,7 +305,8 @@ theorem foldl_clear (rest : SStore)
     rw [List.foldl_cons, foldl_clear rest ih ks, ih k σ]
     funext j
     simp only [List.any_cons]
-    cases reachesS rest k j <;> cases ks.any (fun k => reachesS rest k j) <;> simp
+    by_cases h1 : reachesS rest k j = true <;> by_cases h2 : ks.any (fun k => reachesS rest k j) = true <;>
+      simp [h1, h2]
 
 /-- `clear_scratch` on SDDs empties exactly the reachable cells — from any state -/
 theorem clearS_spec : ∀ (s : SStore) (r : SRef) (σ : Scr U),
@@ -339,6 +342,316 @@ theorem foldS_spec (t : Tag) (A : SAlg (U t)) (s : SStore) (r : SRef) (σ : Scr 
   cases hj : reachesS s r j with
   | true => simp
   | false => simp [hf j hj]
+
+/-! ## `count_h` -/
+
+/-- `count_h` over a list of children, accumulating -/
+def walkKids (rest : SStore) : List SRef → Nat × Scr U → Nat × Scr U
+  | [], acc => acc
+  | k :: ks, acc =>
+    let a := countHS rest k acc.2
+    walkKids rest ks (acc.1 + a.1, a.2)
+
+theorem walkKids_shift (rest : SStore) : ∀ (ks : List SRef) (c d : Nat) (σ : Scr U),
+    walkKids rest ks (c + d, σ) = ((walkKids rest ks (c, σ)).1 + d, (walkKids rest ks (c, σ)).2)
+  | [], _, _, _ => rfl
+  | k :: ks, c, d, σ => by
+    simp only [walkKids]
+    rw [show c + d + (countHS rest k σ).1 = c + (countHS rest k σ).1 + d by omega]
+    exact walkKids_shift rest ks _ d _
+
+theorem foldl_count_eq_walk (rest : SStore) : ∀ (es : List (SRef × SRef)) (acc : Nat × Scr U),
+    es.foldl (fun (acc : Nat × Scr U) e =>
+        let a := countHS rest e.2 acc.2
+        let b := countHS rest e.1 a.2
+        (acc.1 + a.1 + b.1 + 1, b.2)) acc =
+      ((walkKids rest (es.flatMap fun e => [e.2, e.1]) acc).1 + es.length,
+       (walkKids rest (es.flatMap fun e => [e.2, e.1]) acc).2)
+  | [], acc => rfl
+  | e :: es, acc => by
+    rw [List.foldl_cons, foldl_count_eq_walk rest es]
+    simp only [List.flatMap_cons, List.cons_append, List.nil_append, walkKids, List.length_cons]
+    rw [walkKids_shift rest _ _ 1]
+    simp only
+    refine Prod.ext ?_ rfl
+    simp only; omega
+
+/-- the node case of `count_h`, both node kinds, through `walkKids` -/
+theorem countHS_node (n : SNode) (rest : SStore) {r : SRef} (h : r.idx? = some rest.length) (σ : Scr U)
+    (hu : (σ rest.length).asCount = none) :
+    countHS (n :: rest) r σ =
+      ((walkKids rest n.kidsCount (0, σ.set rest.length (.count 0))).1 + n.weight,
+       (walkKids rest n.kidsCount (0, σ.set rest.length (.count 0))).2) := by
+  simp only [countHS, h, if_true, hu]
+  cases n with
+  | bdd l lo hi =>
+    simp only [SNode.kidsCount, walkKids, SNode.weight]
+    refine Prod.ext ?_ rfl
+    simp only; omega
+  | or es => simp only [foldl_count_eq_walk, SNode.kidsCount, SNode.weight]
+
+theorem sum_map_add3 {f g1 g2 g3 : Nat → Nat} : ∀ (l : List Nat),
+    (∀ j ∈ l, f j = g1 j + g2 j + g3 j) →
+    (l.map f).sum = (l.map g1).sum + (l.map g2).sum + (l.map g3).sum
+  | [], _ => rfl
+  | x :: l, h => by
+    have ih := sum_map_add3 l (fun j hj => h j (List.mem_cons_of_mem _ hj))
+    have hx := h x (List.mem_cons_self ..)
+    simp only [List.map_cons, List.sum_cons, ih, hx]; omega
+
+theorem sum_map_zero (l : List Nat) : (l.map fun _ => 0).sum = 0 := by
+  induction l with
+  | nil => rfl
+  | cons x l ih => simp [ih]
+
+theorem sum_beq_range (i : Nat) (wt : Nat) : ∀ N,
+    ((List.range N).map fun j => if j = i then wt else 0).sum = if i < N then wt else 0
+  | 0 => by simp
+  | N + 1 => by
+    rw [List.range_succ, List.map_append, List.sum_append, sum_beq_range i wt N]
+    by_cases h1 : i < N
+    · have : ¬ N = i := by omega
+      simp [h1, this]; omega
+    · by_cases h2 : N = i
+      · subst h2; simp
+      · have : ¬ i < N + 1 := by omega
+        simp [h1, h2, this]
+
+/-- "not yet counted" -/
+def um (σ : Scr U) (j : Nat) : Bool := (σ j).asCount.isNone
+
+/-- below a counted node of `R` everything is counted -/
+def ClosedS (s : SStore) (R : Nat → Bool) (σ : Scr U) : Prop :=
+  ∀ j, R j = true → um σ j = false → ∀ k, reachesS s (.reg j) k = true → um σ k = false
+
+theorem um_mark_pos (p : Nat → Bool) (σ : Scr U) (j : Nat) (h : p j = true) :
+    um (fun j => if p j then Cell.count 0 else σ j) j = false := by
+  simp only [um]; rw [if_pos h]; rfl
+
+theorem um_mark_neg (p : Nat → Bool) (σ : Scr U) (j : Nat) (h : p j = false) :
+    um (fun j => if p j then Cell.count 0 else σ j) j = um σ j := by
+  simp only [um]; rw [if_neg (by simp [h])]
+
+theorem um_set_other (σ : Scr U) {i j : Nat} (c : Cell U) (h : j ≠ i) : um (σ.set i c) j = um σ j := by
+  simp [um, Scr.set_other _ _ h]
+
+theorem weightAt_cons_ne (n : SNode) (rest : SStore) {j : Nat} (h : j ≠ rest.length) :
+    weightAt (n :: rest) j = weightAt rest j := by simp [weightAt, h]
+
+/-- exact behaviour of the children loop, given it for each child -/
+theorem walkKids_spec (rest : SStore) (N : Nat)
+    (ih : ∀ (k : SRef) (σ : Scr U), ClosedS rest (reachesS rest k) σ →
+      countHS rest k σ =
+        (((List.range N).map fun j => if reachesS rest k j && um σ j then weightAt rest j else 0).sum,
+         fun j => if reachesS rest k j && um σ j then .count 0 else σ j)) :
+    ∀ (ks : List SRef) (c : Nat) (σ : Scr U),
+    ClosedS rest (fun j => ks.any fun k => reachesS rest k j) σ →
+    walkKids rest ks (c, σ) =
+      (c + ((List.range N).map fun j =>
+          if (ks.any fun k => reachesS rest k j) && um σ j then weightAt rest j else 0).sum,
+       fun j => if (ks.any fun k => reachesS rest k j) && um σ j then .count 0 else σ j)
+  | [], c, σ, _ => by simp [walkKids, sum_map_zero]
+  | k :: ks, c, σ, hcl => by
+    have hk := ih k σ (fun j hj hu k' hk' => hcl j (by simp [hj]) hu k' hk')
+    simp only [walkKids, hk]
+    have hcl2 : ClosedS rest (fun j => ks.any fun k => reachesS rest k j)
+        (fun j => if reachesS rest k j && um σ j then .count 0 else σ j) := by
+      intro j hj hu k' hk'
+      cases hm : (reachesS rest k k' && um σ k') with
+      | true => exact um_mark_pos (fun j => reachesS rest k j && um σ j) σ k' hm
+      | false =>
+        rw [um_mark_neg (fun j => reachesS rest k j && um σ j) σ k' hm]
+        cases huk : um σ k' with
+        | false => rfl
+        | true =>
+          exfalso
+          have hrk : reachesS rest k k' = false := by simpa [huk] using hm
+          cases hmj : (reachesS rest k j && um σ j) with
+          | true =>
+            simp only [Bool.and_eq_true] at hmj
+            have := reachesS_trans rest k j k' hmj.1 hk'
+            rw [hrk] at this; cases this
+          | false =>
+            have huj : um σ j = false := by
+              rw [← um_mark_neg (fun j => reachesS rest k j && um σ j) σ j hmj]; exact hu
+            have := hcl j (by simp [hj]) huj k' hk'
+            rw [huk] at this; cases this
+    rw [walkKids_spec rest N ih ks _ _ hcl2]
+    have hum : ∀ j, um (fun j => if reachesS rest k j && um σ j then Cell.count 0 else σ j) j =
+        (um σ j && !reachesS rest k j) := by
+      intro j
+      cases hm : (reachesS rest k j && um σ j) with
+      | true =>
+        rw [um_mark_pos (fun j => reachesS rest k j && um σ j) σ j hm]
+        simp only [Bool.and_eq_true] at hm
+        simp [hm.1]
+      | false =>
+        rw [um_mark_neg (fun j => reachesS rest k j && um σ j) σ j hm]
+        cases h1 : reachesS rest k j <;> cases h2 : um σ j <;> simp_all
+    refine Prod.ext ?_ ?_
+    · simp only
+      rw [sum_map_add3 (f := fun j =>
+            if ((k :: ks).any fun k => reachesS rest k j) && um σ j then weightAt rest j else 0)
+          (g1 := fun j => if reachesS rest k j && um σ j then weightAt rest j else 0)
+          (g2 := fun j => if (ks.any fun k => reachesS rest k j) &&
+              um (fun j => if reachesS rest k j && um σ j then Cell.count 0 else σ j) j
+            then weightAt rest j else 0)
+          (g3 := fun _ => 0) (List.range N)]
+      · rw [sum_map_zero]; omega
+      · intro j _
+        simp only [hum, List.any_cons]
+        by_cases h1 : reachesS rest k j = true <;> by_cases h2 : (ks.any fun k => reachesS rest k j) = true <;>
+          by_cases h3 : um σ j = true <;> simp [h1, h2, h3]
+    · funext j
+      simp only [hum, List.any_cons]
+      by_cases h1 : reachesS rest k j = true <;> by_cases h2 : (ks.any fun k => reachesS rest k j) = true <;>
+        by_cases h3 : um σ j = true <;> simp [h1, h2, h3]
+
+/-- `count_h`, exactly: counts and marks the reachable nodes not yet counted -/
+theorem countHS_spec (N : Nat) : ∀ (s : SStore) (r : SRef) (σ : Scr U), s.length ≤ N →
+    ClosedS s (reachesS s r) σ →
+    countHS s r σ =
+      (((List.range N).map fun j => if reachesS s r j && um σ j then weightAt s j else 0).sum,
+       fun j => if reachesS s r j && um σ j then .count 0 else σ j)
+  | [], r, σ, _, _ => by simp [countHS, reachesS, sum_map_zero]
+  | n :: rest, r, σ, hN, hcl => by
+    simp only [List.length_cons] at hN
+    cases h : r.idx? with
+    | none => simp [countHS, h, reachesS_none _ h, sum_map_zero]
+    | some i =>
+      by_cases hi : i = rest.length
+      · subst hi
+        have hreach : ∀ j, reachesS (n :: rest) r j =
+            (j == rest.length || n.kidsCount.any (fun k => reachesS rest k j)) := fun j => by
+          rw [reachesS_cons_eq n rest h, kidsCount_any_eq_kids_any]
+        cases hu : (σ rest.length).asCount with
+        | some c =>
+          have hui : um σ rest.length = false := by simp [um, hu]
+          have hall : ∀ j, (reachesS (n :: rest) r j && um σ j) = false := by
+            intro j
+            cases hj : reachesS (n :: rest) r j with
+            | false => rfl
+            | true =>
+              simp only [Bool.true_and]
+              refine hcl _ (reachesS_self n rest h) hui j ?_
+              rw [← hj]; exact reachesS_congr (by rw [h]; rfl) _ _
+          simp [countHS, h, hu, hall, sum_map_zero]
+        | none =>
+          have hui : um σ rest.length = true := by simp [um, hu]
+          rw [countHS_node n rest h σ hu]
+          have hlt : ∀ j, (n.kidsCount.any fun k => reachesS rest k j) = true → j < rest.length := by
+            intro j hj
+            simp only [List.any_eq_true] at hj
+            obtain ⟨k, _, hk⟩ := hj
+            exact reachesS_lt _ _ _ hk
+          have hcl1 : ClosedS rest (fun j => n.kidsCount.any fun k => reachesS rest k j)
+              (σ.set rest.length (.count 0)) := by
+            intro j hj huj k hk
+            have hjl := hlt j hj
+            have hkl := reachesS_lt _ _ _ hk
+            rw [um_set_other _ _ (by omega)] at huj ⊢
+            refine hcl j (by rw [hreach]; simp [hj]) huj k ?_
+            rw [reachesS_cons_ne n rest (r := .reg j) rfl (by omega)]; exact hk
+          rw [walkKids_spec rest N (fun k σ hk => countHS_spec N rest k σ (by omega) hk)
+            n.kidsCount 0 _ hcl1]
+          have hnot : (n.kidsCount.any fun k => reachesS rest k rest.length) = false := by
+            cases hh : (n.kidsCount.any fun k => reachesS rest k rest.length) with
+            | false => rfl
+            | true => have := hlt _ hh; omega
+          refine Prod.ext ?_ ?_
+          · simp only
+            rw [sum_map_add3 (f := fun j =>
+                  if reachesS (n :: rest) r j && um σ j then weightAt (n :: rest) j else 0)
+                (g1 := fun j => if j = rest.length then n.weight else 0)
+                (g2 := fun j => if (n.kidsCount.any fun k => reachesS rest k j) &&
+                    um (σ.set rest.length (.count 0)) j then weightAt rest j else 0)
+                (g3 := fun _ => 0) (List.range N)]
+            · rw [sum_beq_range, if_pos (by omega), sum_map_zero]; omega
+            · intro j _
+              simp only [hreach]
+              by_cases hji : j = rest.length
+              · subst hji
+                simp [hnot, hui, weightAt]
+              · have : (j == rest.length) = false := by simp [hji]
+                simp only [this, Bool.false_or, um_set_other σ _ hji, weightAt_cons_ne n rest hji, if_neg hji]
+                omega
+          · funext j
+            simp only [hreach]
+            by_cases hji : j = rest.length
+            · subst hji
+              simp [hnot, hui]
+            · have : (j == rest.length) = false := by simp [hji]
+              simp only [this, Bool.false_or, um_set_other σ _ hji, Scr.set_other σ _ hji]
+      · have hstep : countHS (n :: rest) r σ = countHS rest r σ := by simp [countHS, h, hi]
+        rw [hstep, countHS_spec N rest r σ (by omega) (by
+          intro j hj huj k hk
+          have hjl := reachesS_lt _ _ _ hj
+          refine hcl j (by rw [reachesS_cons_ne n rest h hi]; exact hj) huj k ?_
+          rw [reachesS_cons_ne n rest (r := .reg j) rfl (by omega)]; exact hk)]
+        refine Prod.ext ?_ ?_
+        · simp only [reachesS_cons_ne n rest h hi]
+          congr 1
+          apply List.map_congr_left
+          intro j _
+          by_cases hr : reachesS rest r j = true
+          · have := reachesS_lt _ _ _ hr
+            rw [weightAt_cons_ne n rest (by omega)]
+          · simp [hr]
+        · simp only [reachesS_cons_ne n rest h hi]
+
+/-- `SddPtr::count_nodes` -/
+theorem countNodesS_spec (s : SStore) (r : SRef) (σ : Scr U)
+    (h : ∀ j, reachesS s r j = true → (σ j).asCount = none) :
+    countNodesS s r σ = (countSpecS s r, fun j => if reachesS s r j then .empty else σ j) := by
+  have hu : ∀ j, (reachesS s r j && um σ j) = reachesS s r j := by
+    intro j
+    cases hj : reachesS s r j with
+    | false => rfl
+    | true => simp [um, h j hj]
+  simp only [countNodesS, clearS_spec]
+  rw [countHS_spec s.length s r σ (Nat.le_refl _) (fun j hj huj => by
+    simp [um, h j hj] at huj)]
+  simp only [hu]
+  refine Prod.ext rfl ?_
+  funext j
+  by_cases hj : reachesS s r j = true <;> simp [hj]
+
+/-! ## sequences -/
+
+def ClearOnS (s : SStore) (r : SRef) (σ : Scr U) : Prop := ∀ j, reachesS s r j = true → σ j = .empty
+
+theorem emptiedS_of_clearOn {s : SStore} {r : SRef} {σ : Scr U} (h : ClearOnS s r σ) :
+    (fun j => if reachesS s r j then Cell.empty else σ j) = σ := by
+  funext j
+  by_cases hj : reachesS s r j = true
+  · simp [hj, h j hj]
+  · simp [hj]
+
+theorem preOn_of_noPair {t : Tag} {A : SAlg (U t)} {s : SStore} {σ : Scr U} {R : Nat → Bool}
+    (h : ∀ j, R j = true → (σ j).asPair t = none) : PreOn t A s R σ := by
+  intro j hj a b hab; rw [h j hj] at hab; cases hab
+
+/-- the scratch-free reading of an SDD query -/
+def specQueryS (s : SStore) (r : SRef) : QueryS U → Answer U
+  | .fold t A => .val t (valS A s r)
+  | .countNodes => .num (countSpecS s r)
+
+theorem runQueryS_spec (s : SStore) (r : SRef) (q : QueryS U) :
+    runQueryS s Scr.clear r q = (specQueryS s r q, Scr.clear) := by
+  have hc : ClearOnS s r (Scr.clear (U := U)) := fun _ _ => rfl
+  cases q with
+  | fold t A =>
+    simp only [runQueryS, specQueryS]
+    rw [foldS_spec t A s r _ (preOn_of_noPair (fun _ _ => rfl)), emptiedS_of_clearOn hc]
+  | countNodes =>
+    simp only [runQueryS, specQueryS]
+    rw [countNodesS_spec s r _ (fun _ _ => rfl), emptiedS_of_clearOn hc]
+
+theorem runQueriesS_spec (s : SStore) : ∀ (qs : List (SRef × QueryS U)),
+    runQueriesS s Scr.clear qs = (qs.map fun p => specQueryS s p.1 p.2, Scr.clear)
+  | [] => rfl
+  | (r, q) :: qs => by
+    simp only [runQueriesS, runQueryS_spec, runQueriesS_spec s qs, List.map_cons]
 
 end cells
 
